@@ -460,7 +460,7 @@ fn c25_o2_bwd_n3() {
     std::mem::forget(origin);
 }
 
-// @verif prop=C25 obl=O3 tier=quick bounds="all values of every edge field (ingredient <= 0x7FFF_FFFF, index < Id::MAX_U32, any generation, both kinds); exactly 2 edges; both derived kinds; extra data present"
+// @verif prop=C25 obl=O3 tier=thorough bounds="all values of every edge field (ingredient <= 0x7FFF_FFFF, index < Id::MAX_U32, any generation, both kinds); exactly 2 edges; both derived kinds; extra data present"
 // @+ encodes="OriginAndExtra::derived, OriginAndExtra::derived_untracked, OriginAndExtra::new_derived_with_kind, OriginAndExtra::allocate_derived_with_header, SliceWithHeader::allocate, SliceWithHeaderBuilder::push/extend/finish, PackedQueryEdge::new, PackedQueryEdge::edge, OriginAndExtra::origin, SliceWithHeader::slice, QueryEdgeIter::next_back"
 /// C25-O3: reverse iteration with co-allocated extra data.
 #[kani::proof]
@@ -505,7 +505,7 @@ fn c25_o2_partition_o() {
     std::mem::forget(origin);
 }
 
-// @verif prop=C25 obl=O2 tier=quick bounds="all values of ingredient/index/generation of 2 edges; edge kinds fixed to the pattern ii (all 2^2 patterns are separate harnesses); derived kind symbolic"
+// @verif prop=C25 obl=O2 tier=thorough bounds="all values of ingredient/index/generation of 2 edges; edge kinds fixed to the pattern ii (all 2^2 patterns are separate harnesses); derived kind symbolic"
 // @+ encodes="OriginAndExtra::derived, OriginAndExtra::derived_untracked, OriginAndExtra::new_derived_with_kind, OriginAndExtra::allocate_derived_with_header, SliceWithHeader::allocate, SliceWithHeaderBuilder::push/extend/finish, PackedQueryEdge::new, PackedQueryEdge::edge, OriginAndExtra::origin, SliceWithHeader::slice, QueryOriginRef::inputs, QueryOriginRef::outputs, QueryEdges::iter_outputs, output_edges"
 /// C25-O2: inputs() and outputs() partition the stored keys and preserve order (kind pattern ii).
 #[kani::proof]
@@ -537,7 +537,7 @@ fn c25_o2_partition_io() {
     std::mem::forget(origin);
 }
 
-// @verif prop=C25 obl=O2 tier=quick bounds="all values of ingredient/index/generation of 2 edges; edge kinds fixed to the pattern oi (all 2^2 patterns are separate harnesses); derived kind symbolic"
+// @verif prop=C25 obl=O2 tier=thorough bounds="all values of ingredient/index/generation of 2 edges; edge kinds fixed to the pattern oi (all 2^2 patterns are separate harnesses); derived kind symbolic"
 // @+ encodes="OriginAndExtra::derived, OriginAndExtra::derived_untracked, OriginAndExtra::new_derived_with_kind, OriginAndExtra::allocate_derived_with_header, SliceWithHeader::allocate, SliceWithHeaderBuilder::push/extend/finish, PackedQueryEdge::new, PackedQueryEdge::edge, OriginAndExtra::origin, SliceWithHeader::slice, QueryOriginRef::inputs, QueryOriginRef::outputs, QueryEdges::iter_outputs, output_edges"
 /// C25-O2: inputs() and outputs() partition the stored keys and preserve order (kind pattern oi).
 #[kani::proof]
@@ -553,7 +553,7 @@ fn c25_o2_partition_oi() {
     std::mem::forget(origin);
 }
 
-// @verif prop=C25 obl=O2 tier=quick bounds="all values of ingredient/index/generation of 2 edges; edge kinds fixed to the pattern oo (all 2^2 patterns are separate harnesses); derived kind symbolic"
+// @verif prop=C25 obl=O2 tier=thorough bounds="all values of ingredient/index/generation of 2 edges; edge kinds fixed to the pattern oo (all 2^2 patterns are separate harnesses); derived kind symbolic"
 // @+ encodes="OriginAndExtra::derived, OriginAndExtra::derived_untracked, OriginAndExtra::new_derived_with_kind, OriginAndExtra::allocate_derived_with_header, SliceWithHeader::allocate, SliceWithHeaderBuilder::push/extend/finish, PackedQueryEdge::new, PackedQueryEdge::edge, OriginAndExtra::origin, SliceWithHeader::slice, QueryOriginRef::inputs, QueryOriginRef::outputs, QueryEdges::iter_outputs, output_edges"
 /// C25-O2: inputs() and outputs() partition the stored keys and preserve order (kind pattern oo).
 #[kani::proof]
@@ -745,7 +745,7 @@ fn c25_o3_clear_edges_n0_extra() {
     clear_edges_case::<0>([], Some((any_stamp(), kani::any())));
 }
 
-// @verif prop=C25 obl=O3 tier=quick bounds="all values of 1 edge; both derived kinds; symbolic stamp"
+// @verif prop=C25 obl=O3 tier=thorough bounds="all values of 1 edge; both derived kinds; symbolic stamp"
 // @+ encodes="QueryRevisions::set_cycle_heads, OriginAndExtra::get_or_insert_extra, QueryRevisions::iteration, QueryRevisions::set_cycle_converged, QueryRevisions::cycle_converged, OriginAndExtra::derived (re-encoding from a decoded iterator)"
 /// C25-O3: inserting extra data into an origin that has none re-encodes it; edges, kind and layout rule survive.
 #[kani::proof]
@@ -916,7 +916,17 @@ fn c02_o7_discard_edges_only_if_never_change() {
 #[kani::stub(real_catch_unwind, stub_catch_unwind)]
 fn c02_o7_cycle_heads_keep_edges() {
     let raw = [RawEdge::any()];
-    let origin = build::<1>(raw, false, None);
+    let s = crate::cycle::verif::stamp(0, 0);
+    // extra data that carries one cycle head, built the way `prepare_completion` builds it
+    let extra = QueryRevisionsExtra::new(
+        #[cfg(feature = "accumulator")]
+        AccumulatedMap::default(),
+        ThinVec::default(),
+        CycleHeads::initial(key(9, 0, 0), s),
+        s,
+        false,
+    );
+    let origin = OriginAndExtra::derived([raw[0].edge()].into_iter(), extra);
     let mut revisions = QueryRevisions {
         changed_at: Revision::start(),
         durability: Durability::NEVER_CHANGE,
@@ -925,8 +935,7 @@ fn c02_o7_cycle_heads_keep_edges() {
         accumulated_inputs: Default::default(),
         verified_final: AtomicBool::new(false),
     };
-    let s = crate::cycle::verif::stamp(0, 0);
-    revisions.set_cycle_heads(CycleHeads::initial(key(9, 0, 0), s), s);
+    assert!(!revisions.cycle_heads().is_empty());
     revisions.discard_edges_if_never_change();
     check_forward(&revisions.origin_and_extra, &raw, false);
     assert!(!revisions.cycle_heads().is_empty());
